@@ -65,7 +65,7 @@ def actions(world):
     names = world.wf.names()
     mid = names[1] if len(names) > 1 else names[0]
     acts = [("gwf", ["run"]), ("gwf", ["run", mid]), ("gwf", ["run", "-d"]), ("gwf", ["status"]), ("gwf", ["touch"]), ("gwf", ["touch", mid]),
-            ("gwf", ["clean", "--all", "-f"]), ("gwf", ["clean", names[0]]), ("gwf", ["clean", "-f"]),
+            ("gwf", ["clean", "--all", "-f"]), ("gwf", ["clean", names[0]]), ("gwf", ["clean", "-f"]), ("gwf", ["clean", "--all", mid]),
             ("editspec", names[0]), ("editspec", mid),
             ("gwf", ["config", "set", "use_spec_hashes", "false" if enabled(world) else "true"]),
             ("reject", 0), ("reject", 1), ("drain",), ("failone",)]
@@ -247,15 +247,15 @@ def run(ctx):
 
     quick = ctx.tier == "quick"
     done = []
-    for wfname, depth in ((("fork", 3), ("chain", 2)) if quick else (("fork", 5), ("chain", 5), ("diamond", 3))):
+    for wfname, depth in ((("fork", 3), ("chain", 2), ("forkp", 2)) if quick else (("fork", 5), ("chain", 5), ("diamond", 3), ("forkp", 4))):
         meta = dict(wf=wfname)
         e2.bfs(ctx, me, "expand", inits(wfname), depth, chunk=2, meta=meta)
         done.append(dict(meta, depth=depth))
     nv = len(SPEC_VARIANTS)
     ctx.pmap(me, "distinct_batch", [(i, j) for i in range(nv) for j in range(nv)], chunk=8)
     ctx.traces_validated = ctx.acc.extra["transitions"]
-    ctx.rule = "state = canonical world incl. hash records and configuration; every transition of the 18-action alphabet is executed with the real CLI and checked"
-    ctx.bound = dict(configs=done, alphabet=18, spec_variants=nv, spec_pairs=nv * nv)
+    ctx.rule = "state = canonical world incl. hash records and configuration; every transition of the 19-action alphabet is executed with the real CLI and checked"
+    ctx.bound = dict(configs=done, alphabet=19, spec_variants=nv, spec_pairs=nv * nv)
     ctx.assumptions = ["Slurm simulator; a rejected submission = sbatch exiting non-zero without creating a job"]
 
 
